@@ -30,6 +30,7 @@ def dispatch (line : String) : String :=
   | "C20" :: rest => GN.Driver.C20.handle rest
   | "REQ" :: rest => GN.Driver.Req.handle rest
   | "EL" :: rest => GN.Driver.EL.handle rest
+  | "ELF" :: rest => GN.Driver.EL.handleFlood rest
   | [] => "EMPTY"
   | _ => "BADLINE unknown-tag"
 
